@@ -29,6 +29,32 @@ def resolved(s):
     return s >= RETURNED
 
 
+class TProc(bc.Proc):
+    """line server with a per-request timeout: the Lean host may be handed garbage by a broken guest (a freed,
+    poisoned parameter record makes every length astronomically large); a request that does not come back is a
+    trap of the host, the process is replaced"""
+
+    def __init__(self, cmd, timeout=25):
+        self.timeout, self.restarts = timeout, 0
+        super().__init__(cmd)
+
+    def rq(self, line):
+        import select
+        self.send(line)
+        try:
+            r, _, _ = select.select([self.p.stdout], [], [], self.timeout)
+            l = self.p.stdout.readline() if r else ""
+        except (OSError, ValueError):
+            l = ""
+        if l == "":
+            try: self.p.kill()
+            except Exception: pass
+            self.restarts += 1
+            self.start()
+            return "trap"
+        return l.rstrip("\n")
+
+
 class Sub:
     def __init__(self, h, call):
         self.h, self.call = h, call
@@ -62,7 +88,7 @@ class AsyncRunner(bc.Runner):
 
     def __init__(self, native_path, host_path, ahost_path):
         super().__init__(native_path, host_path)
-        self.ahost = bc.Proc([ahost_path])
+        self.ahost = TProc([ahost_path])
         self.reset_host()
 
     def close(self):
